@@ -277,10 +277,11 @@ EXTRA = {
            "product rule conjugates the term through the anti-linear operand's Jacobian; stored Jacobians enter new Jacobians as operators "
            "(never applied to a value); a derivative helper does not refuse an argument value (None) that it later handles and that the "
            "plain function accepts; merged block-diagonal Jacobians keep the chain-rule order.",
-    "C06": " Also decided: every return of AnyArray.norm is the norm of the flattened array; indices derived from `spaces` are never "
+    "C06": " Also decided: every return of AnyArray.norm is the norm of the flattened array; volume-weighted reductions on a two-pixel field "
+           "(terms); Field.weight never combines an integer copy in place with float volume factors; indices derived from `spaces` are never "
            "applied to an already contracted field.",
-    "C07": " Also decided: pickling restores the lock (__setstate__), scalar broadcast bases are locked, and views handed out by methods "
-           "are read-only.",
+    "C07": " Also decided: unpickling re-applies the lock (__setstate__), scalar broadcast bases are locked, and MultiField stores its entries "
+           "in a tuple.",
     "C08": " Also decided: the memoised domain hash has no interpreter-dependent component; LMSpace's m-loop may be empty; the bin "
            "population used for volumes and k-lengths is the bincount of the stored pindex on every path; per-axis quantities in "
            "dimension loops are indexed by the loop's axis.",
@@ -301,15 +302,18 @@ EXTRA = {
            "maxiter=0).",
     "C17": " Also decided: the accepted (f, x, g, |g|) tuple is updated atomically, the limit status is guarded, and the trust-region "
            "sub-problem measures its iterate in the norm of its boundary.",
-    "C21": " Also decided: sample draw order is a list order (no set iteration), and nested contexts restore in LIFO order.",
-    "C22": " Also decided: contiguity requirements of the wire format and per-rank slices derived from the task count only.",
+    "C21": " Also decided: no random draw iterates over a set; getState/setState save and restore both stacks without rebuilding generators; "
+           "the hash of a Vector used as static argument depends on the leaf values.",
+    "C22": " Also decided: sample lists rebuilt in the MPI modules keep their communicator, and local sample indices start at the sum of the "
+           "actual counts of the lower ranks.",
     "C23": " Also decided: type assertions only for type-specific wire formats, every MPI return path is the broadcast result, and the "
            "layout comes from gathered counts.",
-    "C24": " Also decided: the configuration is stored before any early return, the pickled state holds positions and residuals under "
-           "their own names, and resume compares against the stored (normalised) configuration.",
-    "C25": " Also decided: marker ordering relative to sample files for every save strategy (one recorded finding: 'latest').",
-    "C27": " Also decided: per-iteration callables are called with the iteration number exactly once per use and optional arguments "
-           "are defaulted before their first use.",
+    "C24": " Also decided: no statement reachable after un-pickling reads position_or_samples, every return after loading has re-attached the "
+           "configuration, and custom pickling maps every stored name to the attribute of the same name.",
+    "C25": " Also decided: resume probes the files of the last finished iteration (never the index to resume), and the driver never deletes a "
+           "committed file (one recorded finding: save strategy 'latest').",
+    "C27": " Also decided: the loop body never reads initial_index, and _export_operators tests _is_subdomain(operator.domain, "
+           "samples.domain) in this order.",
 }
 for _k, _v in EXTRA.items():
     if _k in CLAIMED:
